@@ -40,6 +40,11 @@ def items(tier):
     for k in (3, 4, 5, 7):
         out.append((F.many_components_spec(k), {"rule": "TSLACK", "max_time": 12}))
     out.append((F.idle_component_spec(), {"rule": "TSLACK", "max_time": 14}))
+    # components that list their tasks through the constructor keyword only (the tasks do not point back), and a task listed by two components
+    for fl in list(F.flows(3, ("FS", "SS"), (1, 2)))[:: (6 if tier == "quick" else 1)]:
+        sp = F.with_teams(fl, "POOL2")
+        out.append((dict(sp, components=[{"name": "C0", "tasks": [0, 1], "wire": "ctor"}, {"name": "C1", "tasks": [2], "wire": "ctor"}]), {"rule": "TSLACK", "max_time": F.seq_bound(sp) + 8}))
+        out.append((dict(sp, components=[{"name": "C0", "tasks": [0], "also_lists": [2]}, {"name": "C1", "tasks": [1, 2]}]), {"rule": "TSLACK", "max_time": F.seq_bound(sp) + 8}))
     sc = F.shared_child_spec()
     for extra in ({}, {"backward": True, "rev": True}, {"backward": True, "rev": False}, {"post_insert": [2, 1]}, {"post_insert": [3, 1, 2]}, {"reload": True}):
         out.append((sc, dict({"rule": "TSLACK", "max_time": 20}, **extra)))
